@@ -98,6 +98,11 @@ func (g *CodeGraph) FindNodesByType(nodeType string) []*Node {
 	return nodes
 }
 
+// positionKey distinguishes occurrences of equally named constructs within one file.
+func positionKey(node *sitter.Node) []string {
+	return []string{strconv.Itoa(int(node.StartPoint().Row + 1)), strconv.Itoa(int(node.StartPoint().Column + 1))}
+}
+
 func extractVisibilityModifier(modifiers string) string {
 	words := strings.Fields(modifiers)
 	for _, word := range words {
@@ -842,7 +847,7 @@ func visitAST(node *sitter.Node, sourceCode []byte, graph *CodeGraph, currentCon
 		}
 
 		classNode := &Node{
-			ID:               GenerateMethodID(className, []string{}, file),
+			ID:               GenerateMethodID(className, positionKey(node), file),
 			Type:             "class_declaration",
 			Name:             className,
 			CodeSnippet:      node.Content(sourceCode),
@@ -864,7 +869,7 @@ func visitAST(node *sitter.Node, sourceCode []byte, graph *CodeGraph, currentCon
 			javadocTags := parseJavadocTags(commentContent)
 
 			commentNode := &Node{
-				ID:               GenerateMethodID(node.Content(sourceCode), []string{}, file),
+				ID:               GenerateMethodID(node.Content(sourceCode), positionKey(node), file),
 				Type:             "block_comment",
 				CodeSnippet:      commentContent,
 				LineNumber:       node.StartPoint().Row + 1,
@@ -970,7 +975,7 @@ func visitAST(node *sitter.Node, sourceCode []byte, graph *CodeGraph, currentCon
 		}
 
 		objectNode := &Node{
-			ID:                GenerateMethodID(className, []string{strconv.Itoa(int(node.StartPoint().Row + 1))}, file),
+			ID:                GenerateMethodID(className, positionKey(node), file),
 			Type:              "ClassInstanceExpr",
 			Name:              className,
 			CodeSnippet:       node.Content(sourceCode),
